@@ -968,7 +968,7 @@ class C01(Oracle):
             if not display.evaluable(o):
                 w.count('skipped:display_not_evaluable')
                 continue
-            if len(o.text) > 320 or any(len(c) > 10 for c in o.cells):
+            if len(o.text) > 320 or any(len(c) > 40 for c in o.cells):
                 w.count('skipped:display_over_bounds')
                 continue
             display.check_value(v, o, 'display', self.variant, w.stats)
